@@ -52,7 +52,7 @@ Definition pin_fingerprints : list (string * string) := [
   ("ImageBatch.__len__"%string, "a38c3cc6289bad9442a6"%string);
   ("ImageBatch.__getitem__"%string, "97eb8cc34d103d92d625"%string);
   ("ImageBatch.__iter__"%string, "2c1cc4f9d679bd2cf7cf"%string);
-  ("ImageBatch.narrow"%string, "d3c2ed28e613a999bead"%string);
+  ("ImageBatch.narrow"%string, "fc8d8f3524df9ef19b14"%string);
   ("Image.__init__"%string, "af9e2701fa57f8a4a40e"%string);
   ("Image._make_instance"%string, "89631b5d671a6c59fc9c"%string);
   ("Image.__deepcopy__"%string, "f3b9750ca0ba5f1d432c"%string);
@@ -63,7 +63,7 @@ Definition pin_fingerprints : list (string * string) := [
   ("Image.grid"%string, "28f404605540e381a262"%string);
   ("Image.grid_"%string, "8587409aef75f4a01c65"%string);
   ("Image.narrow"%string, "2a5674ce208564204bc6"%string);
-  ("FlowFields.__init__"%string, "8e3c6984c4974e57b400"%string);
+  ("FlowFields.__init__"%string, "78ad643ec73e752bf2a3"%string);
   ("FlowFields._make_instance"%string, "54709c93892d651a493c"%string);
   ("FlowFields._make_subitem"%string, "09adb100636e5a6b69b0"%string);
   ("FlowFields._torch_function_axes"%string, "dedf5e8a8a1476b3eb2c"%string);
@@ -78,7 +78,7 @@ Definition pin_fingerprints : list (string * string) := [
   ("FlowField._torch_function_result"%string, "0a73a24aef9686d0022d"%string);
   ("FlowField.__torch_function__"%string, "3186236201a20bd59cef"%string);
   ("FlowField.batch"%string, "a57fcb04752255041d23"%string);
-  ("DataTensor.__new__"%string, "9e8c6b04eb2f7d0038bd"%string);
+  ("DataTensor.__new__"%string, "8b6aeb5ce1fb9d1c9408"%string);
   ("DataTensor._make_instance"%string, "8214c7218444e47981ea"%string);
   ("DataTensor.__copy__"%string, "88d2b6ee3a6f866d4d1d"%string);
   ("DataTensor.__deepcopy__"%string, "62a181c5829dd07f4fb5"%string);
